@@ -1,7 +1,7 @@
 (* C16 - executable model of the agent tunnel (listener/agent):
    - the codec: messages.go / encoder.go / decoder.go on top of honeytrap/protocol's
      Encoder (a bufio.Writer over a bytes.Buffer) and Decoder (a bufio.Reader over a
-     bytes.Buffer, every ReadUint16/ReadData/ReadString being ONE Read call);
+     bytes.Buffer; agent.Decoder reads uint16s, data and strings with io.ReadFull);
    - the session loop of agent.go (serv) with Connections (connections.go) and
      agentConnection (connection.go), stepped by agent messages and by the actions of
      the services holding the surfaced connections.
@@ -66,22 +66,41 @@ Definition dec_u8 (d : dec) : Z * dec :=
        | (None, r') => (0, mkDec true r')
        end.
 
-(* one Read into a 2-byte array: a 1-byte short read leaves the high byte 0 *)
+(* io.ReadFull(d.Reader, buf) with len(buf) = n: Read again and again until n bytes are
+   there or Read fails.  Every Read on a non-exhausted reader returns at least one byte,
+   so [Z.to_nat need] rounds always suffice (rd_full_spec); out of fuel is reported like
+   an error and shown unreachable.  None = io.EOF / io.ErrUnexpectedEOF. *)
+Fixpoint rd_full_loop (fuel : nat) (need : Z) (r : rd) : option bytes * rd :=
+  if need <=? 0 then (Some [], r)
+  else match fuel with
+       | O => (None, r)
+       | S f =>
+         match rd_read need r with
+         | (Some bs, r') =>
+           let '(rest, r'') := rd_full_loop f (need - zlen bs) r' in
+           (match rest with Some t => Some (bs ++ t) | None => None end, r'')
+         | (None, r') => (None, r')
+         end
+       end.
+Definition rd_full (n : Z) (r : rd) : option bytes * rd := rd_full_loop (Z.to_nat n) n r.
+
+(* agent.Decoder.ReadUint16: both bytes or LastError *)
 Definition dec_u16 (d : dec) : Z * dec :=
   if d_err d then (0, d)
-  else match rd_read 2 (d_rd d) with
+  else match rd_full 2 (d_rd d) with
        | (Some bs, r') => (le16 bs, mkDec false r')
        | (None, r') => (0, mkDec true r')
        end.
 
-(* ReadData / ReadString: make([]byte, l) then ONE Read: a short read leaves the tail
-   zero.  The Read is attempted even when the length could not be read (l = 0). *)
+(* ReadData / ReadString: make([]byte, l) then io.ReadFull: all l bytes or LastError and
+   an empty result.  The ReadFull is attempted even when the length could not be read
+   (l = 0: it returns at once). *)
 Definition dec_data (d : dec) : bytes * dec :=
   if d_err d then ([], d)
   else
     let '(l, d1) := dec_u16 d in
-    match rd_read l (d_rd d1) with
-    | (Some bs, r') => (bs ++ zeros (l - zlen bs), mkDec (d_err d1) r')
+    match rd_full l (d_rd d1) with
+    | (Some bs, r') => (bs, mkDec (d_err d1) r')
     | (None, r') => ([], mkDec true r')
     end.
 
@@ -163,7 +182,7 @@ Definition msg_type (m : msg) : Z :=
   | MEof _ _ => 4 | MPing => 5 | MUdp _ _ _ => 6
   end.
 
-(* MarshalBinary.  Handshake.MarshalBinary does NOT flush its bufio.Writer. *)
+(* MarshalBinary: every message type flushes its bufio.Writer. *)
 Definition encode_msg (m : msg) : bytes :=
   match m with
   | MHello l r => w_out (wr_flush (enc_addr r (enc_addr l new_wr)))
@@ -171,12 +190,13 @@ Definition encode_msg (m : msg) : bytes :=
   | MData l r p => w_out (wr_flush (enc_data p (enc_addr r (enc_addr l new_wr))))
   | MUdp l r p => w_out (wr_flush (enc_data p (enc_addr r (enc_addr l new_wr))))
   | MHandshake pv v s c t =>
-      w_out (enc_data t (enc_data c (enc_data s (enc_data v (enc_u16 pv new_wr)))))
+      w_out (wr_flush (enc_data t (enc_data c (enc_data s (enc_data v (enc_u16 pv new_wr))))))
   | MHsResp addrs => w_out (wr_flush (enc_addrs addrs (enc_u8 (zlen addrs) new_wr)))
   | MPing => []
   end.
 
-(* what MarshalBinary would give with a final Flush (= the concatenation of the writes) *)
+(* the encoding with a final Flush, written out separately: Check.v classifies a
+   regression of Handshake.MarshalBinary against it (today it equals encode_msg) *)
 Definition encode_flushed (m : msg) : bytes :=
   match m with
   | MHandshake pv v s c t =>
